@@ -147,6 +147,9 @@ func setup(e *emitter, bc *bcase, rr *recRep) (gmars.ReportingSimulator, []gmars
 	sim.AddReporter(rr)
 	if bc.flags&32 != 0 {
 		bc.recorder = gmars.NewStateRecorder(sim)
+		if bc.flags&256 != 0 {
+			bc.recorder.SetRecordRead(true)
+		}
 		sim.AddReporter(bc.recorder)
 	}
 	var ws []gmars.Warrior
@@ -283,6 +286,18 @@ func runBattle(e *emitter, c []int64) {
 		if guard(func() { sim.Reset() }) {
 			e.rec(9, 2)
 			return
+		}
+		if bc.recorder != nil {
+			// what the recorder shows right after the reset
+			out := []int64{14}
+			if !guard(func() {
+				for a := gmars.Address(0); a < sim.CoreSize(); a++ {
+					st, col := bc.recorder.GetMemState(a)
+					out = append(out, int64(st), int64(col))
+				}
+			}) {
+				e.rec(out...)
+			}
 		}
 		if !spawnAll(e, bc, sim, rr) {
 			return
